@@ -5,6 +5,7 @@ mod action;
 mod api;
 mod methods;
 mod num;
+mod params;
 mod tok;
 mod util;
 mod window;
@@ -28,6 +29,7 @@ fn dispatch(cmd: &str, rest: &[String]) {
 		"action-replay" => action::replay(rest),
 		"action-probe" => action::probe(rest),
 		"api-replay" => api::replay(rest),
+		"params-replay" => params::replay(rest),
 		"num-record" => num::record(rest),
 		"tok-replay" => tok::replay(rest),
 		"tok-record" => tok::record(rest),
